@@ -92,6 +92,8 @@ func VerifC16Op() {
 			r, err = integrate.MergeExtendedSpatialIds(ids, h-1, v-1)
 		case 7:
 			r, err = integrate.MergeExtendedSpatialIds(ids, h, v)
+		case 9:
+			r, err = integrate.ChangeExtendedSpatialIdsZoom(ids, h+1, v+1)
 		case 3:
 			r, err = operated.GetNspatialIdsAroundVoxcels(ids, 0, 1)
 		case 4:
@@ -108,7 +110,7 @@ func VerifC16Op() {
 	in := vSpare(a, b)
 	vFrameBegin("set-valued operation")
 	base := call(in)
-	vMapOrders(true)
+	vMapOrders(vCase("orders") == 1) // orders = 0 when a map in the operation holds more than 4 keys (the order bound)
 	other := call(in)
 	vMapOrders(false)
 	vFrameEnd()
